@@ -24,7 +24,12 @@ ASSUMPTIONS = ["urllib.parse.unquote(s) with default errors='replace' raises not
 
 H = 'ombott.request_pkg.helpers'
 TOTAL_CALLS = {'len', 'enumerate', 'dict', 'list', 'range', 'str'}
-TOTAL_ATTRS = {'replace', 'append', 'get', 'setdefault', 'startswith', 'strip', 'lower', 'split', 'partition', 'find', 'join'}
+TOTAL_ATTRS = {'replace', 'append', 'get', 'setdefault', 'startswith', 'strip', 'lower', 'split', 'partition', 'find', 'join',
+               'lstrip', 'rstrip', 'rpartition', 'rsplit', 'rfind', 'upper', 'endswith', 'splitlines', 'count', 'casefold', 'extend', 'items', 'keys', 'values',
+               'isdigit', 'isalpha', 'isalnum', 'isspace', 'add', 'copy', 'clear'}
+# operations that raise for some argument: a call of one of these in the scanner is a way to fail; anything in neither list is left undecided
+PARTIAL_ATTRS = {'index', 'rindex', 'pop', 'remove', 'encode', 'decode', 'format', 'group', 'groups', 'popitem', 'fromhex', 'translate', 'send', 'throw'}
+PARTIAL_CALLS = {'int', 'float', 'ord', 'chr', 'next', 'bytes', 'bytearray', 'complex', 'max', 'min', 'eval', 'exec', 'open', 'getattr', 'iter', 'zip'} - {'zip', 'iter'}
 
 
 def unquote_names(mod):
@@ -144,31 +149,19 @@ def ge_cursor(f, loop, cur, bound, e, at, assume_nonneg=(), depth=0):
     return False
 
 
-def check(P, R):
-    R.rule('C18.a', 'scanner terminates (cursor strictly increases round the loop)', floor=3)
-    R.rule('C18.b', 'scanner raises nothing', floor=5)
-    R.rule('C18.c', 'list promotion keeps submission order; membership decides "seen"', floor=4)
-    R.rule('C18.d', 'plus-to-space before percent-decoding', floor=3)
+def split_scanner(f):
+    """(for-loop, split call) when the scanner is `for piece in <text>.split(<separator>)` over the text to parse, else None"""
+    for lp in walk_shallow(f.node):
+        if isinstance(lp, ast.For) and enclosing(lp, (ast.For, ast.While)) is None:
+            it = T.expand(f, lp.iter, f.cfg.nodes_for(lp)[0])
+            if isinstance(it, ast.Call) and call_attr(it) == 'split' and it.args and isinstance(it.args[0], ast.Constant) and isinstance(it.args[0].value, str) \
+                    and f.params[0] in names_loaded(it.func.value):
+                return lp, it
+    return None
 
-    f = P.func(f'{H}:parse_qsl')
+
+def check_cursor_progress(R, f, loop):
     g, rd = f.cfg, f.rd
-    mod = f.module
-    # shape-independent: the separators are looked for in the raw text - what has been percent-decoded is never split again
-    n_split = 0
-    for c in walk_shallow(f.node):
-        if isinstance(c, ast.Call) and call_attr(c) in ('partition', 'rpartition', 'split', 'rsplit', 'find', 'index') and c.args \
-                and isinstance(c.args[0], ast.Constant) and c.args[0].value in ('=', '&', ';'):
-            n_split += 1
-            cl = rd.closure_nodes(c.func.value, g.node_of_stmt(c)[0], follow_mut=False)
-            dec = [x for x in cl if isinstance(x, ast.Call) and (dotted(x.func) or '').split('.')[-1] in ('urlunquote', 'unquote', 'unquote_plus', 'unquote_to_bytes')]
-            R.ob('C18.d', f, c, not dec, text=f'`{short(c)}` works on the still-escaped text', detail='' if not dec else
-                 f'`{short(c)}` separates text that `{short(dec[0])}` has already percent-decoded: an escaped separator inside a name (%3D, %26) is decoded first and then '
-                 f'taken for the real separator - `sum%28a%3Db%29=yes` parses to (\'sum(a\', \'b)=yes\')',
-                 why='parsing the encoding of a list of pairs yields the same pairs, separators inside keys and values included', key_extra='split-before-decode')
-    whiles = [n for n in walk_shallow(f.node) if isinstance(n, ast.While) and not any(isinstance(p_, ast.While) for p_ in T.loops_of(n)[1:] if p_ is not n)]
-    whiles = [n for n in whiles if enclosing(n, ast.While) is None]
-    R.require(len(whiles) == 1, f'{f.fq}: expected one scanning loop')
-    loop = whiles[0]
     cp = compare_parts(loop.test)
     R.require(cp and cp[1] is ast.Lt and isinstance(cp[0], ast.Name) and isinstance(cp[2], ast.Name), 'scan loop is not `while i < L`')
     cur, bound = cp[0].id, cp[2].id
@@ -222,6 +215,65 @@ def check(P, R):
     R.ob('C18.a', f, unbounded[0] if unbounded else loop, not unbounded, text='inner loops are bounded (for-loops, or an index counted up to the length)',
          detail='' if not unbounded else 'an inner while loop of the scanner is not of the form `while j < L and ..: j += 1`', nontrivial=False)
 
+    return head
+
+
+def check(P, R):
+    R.rule('C18.a', 'scanner terminates (cursor strictly increases round the loop)', floor=3)
+    R.rule('C18.b', 'scanner raises nothing', floor=5)
+    R.rule('C18.c', 'list promotion keeps submission order; membership decides "seen"', floor=4)
+    R.rule('C18.d', 'plus-to-space before percent-decoding', floor=3)
+
+    f = P.func(f'{H}:parse_qsl')
+    g, rd = f.cfg, f.rd
+    mod = f.module
+    # shape-independent: the separators are looked for in the raw text - what has been percent-decoded is never split again
+    n_split = 0
+    for c in walk_shallow(f.node):
+        if isinstance(c, ast.Call) and call_attr(c) in ('partition', 'rpartition', 'split', 'rsplit', 'find', 'index') and c.args \
+                and isinstance(c.args[0], ast.Constant) and c.args[0].value in ('=', '&', ';'):
+            n_split += 1
+            cl = rd.closure_nodes(c.func.value, g.node_of_stmt(c)[0], follow_mut=False)
+            dec = [x for x in cl if isinstance(x, ast.Call) and (dotted(x.func) or '').split('.')[-1] in ('urlunquote', 'unquote', 'unquote_plus', 'unquote_to_bytes')]
+            R.ob('C18.d', f, c, not dec, text=f'`{short(c)}` works on the still-escaped text', detail='' if not dec else
+                 f'`{short(c)}` separates text that `{short(dec[0])}` has already percent-decoded: an escaped separator inside a name (%3D, %26) is decoded first and then '
+                 f'taken for the real separator - `sum%28a%3Db%29=yes` parses to (\'sum(a\', \'b)=yes\')',
+                 why='parsing the encoding of a list of pairs yields the same pairs, separators inside keys and values included', key_extra='split-before-decode')
+    whiles = [n for n in walk_shallow(f.node) if isinstance(n, ast.While) and not any(isinstance(p_, ast.While) for p_ in T.loops_of(n)[1:] if p_ is not n)]
+    whiles = [n for n in whiles if enclosing(n, ast.While) is None]
+    pieces = split_scanner(f)
+    if not whiles and pieces is not None:
+        # the other way to write the scanner: one pass over the pieces between the pair separators
+        loop, splitc = pieces
+        head = T.loop_head(g, loop)
+        R.ob('C18.a', f, loop, True, text=f'scanner: for {short(loop.target)} in {short(splitc)} - finitely many pieces, one pass')
+        inner = [n for st in loop.body for n in walk_shallow(st) if isinstance(n, ast.While)]
+        R.ob('C18.a', f, inner[0] if inner else loop, not inner, text='no open-ended loop per piece', detail='' if not inner else
+             'a while loop inside the per-pair pass: its termination has no recogniser here', nontrivial=False)
+        R.ob('C18.a', f, splitc, is_const(splitc.args[0], '&') and len(splitc.args) == 1 and not splitc.keywords, text='pairs are separated at every `&`',
+             detail='the text is not cut at every `&`: pairs after the first cut are lost or merged',
+             why='parsing the encoding of a list of pairs yields the same pairs')
+        # name / value separation: at one `=` of the piece, whatever else the piece contains
+        seps = [c for st in loop.body for c in walk_shallow(st) if isinstance(c, ast.Call) and call_attr(c) in ('partition', 'rpartition', 'split', 'rsplit', 'find', 'index')
+                and c.args and is_const(c.args[0], '=')]
+        R.ob('C18.a', f, seps[0] if seps else loop, bool(seps), text='name and value are separated at `=`', detail='' if seps else
+             'no separation of name and value at `=` found', nontrivial=False)
+        for c in seps:
+            if call_attr(c) in ('split', 'rsplit'):
+                bounded = len(c.args) >= 2 or any(k.arg == 'maxsplit' for k in c.keywords)
+                st_ = stmt_of(c)
+                fixed = isinstance(st_, ast.Assign) and st_.value is c and isinstance(st_.targets[0], (ast.Tuple, ast.List)) and \
+                    not any(isinstance(e, ast.Starred) for e in st_.targets[0].elts)
+                okc = not (fixed and not bounded) and not (fixed and len(st_.targets[0].elts) != 2)
+                R.ob('C18.b', f, c, okc, text=f'`{short(st_)}` cannot fail to unpack', detail='' if okc else
+                     f'`{short(st_)}` unpacks into a fixed number of names whatever the number of `=` in the piece: ValueError for "a=b=c" (or for a bare name)',
+                     why='parsing any string whatsoever terminates without raising', key_extra='unpack')
+            if call_attr(c) in ('find', 'index'):
+                R.undecided('C18.a', f, c, 'name / value separation', f'`{short(c)}`: index arithmetic on the piece has no recogniser in the split form')
+    else:
+        R.require(len(whiles) == 1, f'{f.fq}: expected one scanning loop')
+        loop = whiles[0]
+        head = check_cursor_progress(R, f, loop)
     # ---- b: raises nothing
     unq = unquote_names(mod)
     R.require(unq, 'helpers.py does not import urllib.parse.unquote')
@@ -331,8 +383,11 @@ def check_total(P, R, f, unq, seen, depth=0):
                     for mname_ in ('__init__', '__call__'):
                         if mname_ in r[1].methods:
                             check_total(P, R, r[1].methods[mname_], unq, seen, depth + 1)
+                elif nm in PARTIAL_CALLS:
+                    ok, det = False, f'call of `{nm}`, which raises for some arguments'
                 else:
-                    ok, det = False, f'call of `{nm}` is not in the catalogue of total operations'
+                    R.undecided('C18.b', f, c, f'{short(c)}', f'`{nm}` is in neither catalogue (total / raising operations)')
+                    continue
         elif isinstance(c.func, ast.Attribute):
             stored_callable = False
             if isinstance(c.func.value, ast.Name) and c.func.value.id == 'self' and f.owner_cls is not None and '__init__' in f.owner_cls.methods:
@@ -345,8 +400,11 @@ def check_total(P, R, f, unq, seen, depth=0):
                 is_logger = isinstance(mv_, ast.Call) and (dotted(mv_.func) or '').endswith('getLogger')
             if stored_callable or is_logger:
                 pass      # the sink callable handed to the constructor (like the `setitem` / `append` parameters); logging calls do not raise
+            elif c.func.attr in PARTIAL_ATTRS:
+                ok, det = False, f'method `{c.func.attr}` raises for some arguments'
             elif c.func.attr not in TOTAL_ATTRS:
-                ok, det = False, f'method `{c.func.attr}` is not in the catalogue of total operations'
+                R.undecided('C18.b', f, c, f'{short(c)}', f'method `{c.func.attr}` is in neither catalogue (total / raising operations)')
+                continue
         R.ob('C18.b', f, c, ok, detail=det, why='parsing any string whatsoever must not raise')
     for n in ast.walk(f.node):
         if isinstance(n, (ast.Raise, ast.Assert)):
@@ -443,10 +501,57 @@ def check_add(P, R, f):
     # promotion: a list literal [first, new] where first comes from the seen-store and new is the parameter, stored once via setitem
     lists = [x for x in ast.walk(a.node) if isinstance(x, ast.List) and len(x.elts) == 2]
     ok = False
+
+    def looked_up(name, at):
+        """the dict `name` was read from under the key, at every definition: `name = D.get(k)` / `D[k]`"""
+        ds = rd.at(at, name)
+        out = set()
+        for d in ds:
+            dv = d.value
+            if dv is not None and isinstance(dv, ast.Call) and call_attr(dv) == 'get' and dotted(dv.func.value) and dv.args and src(dv.args[0]) == k:
+                out.add(dotted(dv.func.value))
+            elif dv is not None and isinstance(dv, ast.Subscript) and dotted(dv.value) and src(dv.slice) == k:
+                out.add(dotted(dv.value))
+            else:
+                return None
+        return out if len(out) == 1 else None
+
+    def record_first_field(e0, at):
+        """`slot.first` where slot = D.get(k), D[k] is only ever bound to K(v) (the value of that occurrence), and K.__init__ keeps that argument
+        in the field `first`"""
+        if not (isinstance(e0, ast.Attribute) and isinstance(e0.value, ast.Name)):
+            return False
+        dn = looked_up(e0.value.id, at)
+        if not dn:
+            return False
+        vals = stores.get(next(iter(dn)), [])
+        if not vals:
+            return False
+        for x in vals:
+            if not (isinstance(x, ast.Call) and len(x.args) >= 1):
+                return False
+            r_ = P.resolve_name(f.module, dotted(x.func) or '')
+            if not (r_ and r_[0] == 'class' and '__init__' in r_[1].methods):
+                return False
+            init_ = r_[1].methods['__init__']
+            pos = [i_ for i_, a_ in enumerate(x.args) if isinstance(a_, ast.Name) and a_.id == v]
+            if len(pos) != 1 or pos[0] + 1 >= len(init_.params):
+                return False
+            pname = init_.params[pos[0] + 1]
+            sets_ = [s_ for s_ in walk_shallow(init_.node) if isinstance(s_, ast.Assign) and any(dotted(t_) == f'self.{e0.attr}' for t_ in s_.targets)]
+            if not (len(sets_) == 1 and isinstance(sets_[0].value, ast.Name) and sets_[0].value.id == pname):
+                return False
+            # nothing else writes the field
+            if any(isinstance(t_, ast.Attribute) and t_.attr == e0.attr and isinstance(t_.ctx, ast.Store) and s_ is not sets_[0]
+                   for root_ in scope_nodes + [r_[1].node] for s_ in ast.walk(root_) if isinstance(s_, (ast.Assign, ast.AugAssign))
+                   for t_ in (s_.targets if isinstance(s_, ast.Assign) else [s_.target])):
+                return False
+        return True
     for L in lists:
         e0, e1 = L.elts
         first_from_seen = isinstance(e0, ast.Subscript) and dotted(e0.value) and src(e0.slice) == k or \
-            (isinstance(e0, ast.Name) and any(d.value is not None and isinstance(d.value, (ast.Subscript, ast.Call)) for d in rd.at(g.node_of_stmt(L)[0], e0.id)))
+            (isinstance(e0, ast.Name) and any(d.value is not None and isinstance(d.value, (ast.Subscript, ast.Call)) for d in rd.at(g.node_of_stmt(L)[0], e0.id))) or \
+            record_first_field(e0, g.node_of_stmt(L)[0])
         ok = ok or (first_from_seen and isinstance(e1, ast.Name) and e1.id == v)
     R.ob('C18.c', a, lists[0] if lists else a.node, ok, text='second value -> [first, second]', detail='' if ok else
          'the promotion does not build [first value, new value] in that order')
@@ -461,6 +566,8 @@ def check_add(P, R, f):
                     kept = True
                 elif isinstance(t_, ast.Name):
                     names_.add(t_.id)
+                elif isinstance(t_, ast.Attribute) and isinstance(t_.value, ast.Name) and looked_up(t_.value.id, g.node_of_stmt(L)[0]):
+                    kept = True          # a field of the record kept under the key
         for n2 in ast.walk(a.node):
             if isinstance(n2, ast.Assign) and isinstance(n2.value, ast.Name) and n2.value.id in names_ and any(
                     isinstance(t_, ast.Subscript) and dotted(t_.value) and src(t_.slice) == k for t_ in n2.targets):
